@@ -37,8 +37,25 @@ fn samples(cx: &mut Ctx, iters: usize) -> Vec<(Element, Aff, String)> {
     }
     out.push((Element::default(), id(), "default()".into()));
     out.push((Element::IDENTITY, id(), "IDENTITY".into()));
+    // the identity reached the hard way: as the 2-torsion representative (0, -1), with Z = 1 and with Z != 1
+    for k in [1u64, 2, 3, 6, 7, 12, 13] {
+        let p = g * Fr::from(k);
+        let dec = Encoding(p.vartime_compress().0).vartime_decompress().unwrap();
+        out.push((p - dec, id(), format!("G*{} - decode(encode(G*{}))", k, k)));
+        out.push((dec - p, id(), format!("decode(encode(G*{})) - G*{}", k, k)));
+        let a: Affine = (p - dec).into_affine();
+        out.push((a.into(), id(), format!("affine(G*{} - decode(encode(G*{})))", k, k)));
+        out.push((p + p * fr_of(&(&rr - n(1))), id(), format!("G*{} + (r-1)*G*{}", k, k)));
+        // negated decoded points and affine round trips of them (Z = 1, possibly the other coset member)
+        let want = smul(&((&rr - n(k)) % &rr), &gen());
+        out.push((-dec, want.clone(), format!("-decode(encode(G*{}))", k)));
+        let a: Affine = (-dec).into_affine();
+        out.push((a.into(), want.clone(), format!("affine(-decode(encode(G*{})))", k)));
+    }
+    out.push((g.mul_bigint(limbs_of(&rr)), id(), "G.mul_bigint(r)".into()));
     out
 }
+fn limbs_of(v: &N) -> Vec<u64> { let mut l: Vec<u64> = v.iter_u64_digits().collect(); if l.is_empty() { l.push(0); } l }
 
 pub fn encode(cx: &mut Ctx, iters: usize) {
     for (e, want, how) in samples(cx, iters) {
@@ -97,6 +114,37 @@ pub fn decode(cx: &mut Ctx, iters: usize) {
         let base = got.as_ref().ok().map(|e| enc(e));
         for (nm, vv) in [("TryFrom<[u8;32]>", v1), ("TryFrom<&[u8]>", v2), ("TryFrom<Encoding>", v3), ("TryFrom<&Encoding>", v4), ("CanonicalDeserialize Element", v5), ("CanonicalDeserialize AffinePoint", v6)] {
             cx.eq(&format!("entry point {} agrees with vartime_decompress", nm), &d, vv, base.clone());
+        }
+    }
+    // stream entry points: anything but exactly 32 bytes must be refused, however the reader delivers them
+    {
+        struct Chunked<'a> { data: &'a [u8], pos: usize, step: usize }
+        impl<'a> ark_std::io::Read for Chunked<'a> {
+            fn read(&mut self, buf: &mut [u8]) -> ark_std::io::Result<usize> {
+                let nb = buf.len().min(self.step).min(self.data.len() - self.pos);
+                buf[..nb].copy_from_slice(&self.data[self.pos..self.pos + nb]);
+                self.pos += nb;
+                Ok(nb)
+            }
+        }
+        let mut encs: Vec<[u8; 32]> = vec![[0u8; 32]];
+        for k in 1..6u64 { encs.push((Element::GENERATOR * Fr::from(k)).vartime_compress().0); }
+        let mut e8 = [0u8; 32]; e8[0] = 8; encs.push(e8);
+        for e in encs.iter() {
+            let full = Encoding(*e).vartime_decompress().ok().map(|x| enc(&x));
+            for len in 0..32usize {
+                let dd = || format!("first {} bytes of the encoding {:02x?}", len, e);
+                cx.eq("short stream refused (Element)", &dd, Element::deserialize_compressed(&e[..len]).is_err(), true);
+                cx.eq("short stream refused (Encoding)", &dd, Encoding::deserialize_compressed(&e[..len]).is_err(), true);
+                cx.eq("short stream refused (AffinePoint)", &dd, Affine::deserialize_compressed(&e[..len]).is_err(), true);
+            }
+            for step in [1usize, 3, 7, 16, 31, 32, 64] {
+                let dd = || format!("encoding {:02x?} delivered {} bytes per read", e, step);
+                let got = Element::deserialize_compressed(Chunked { data: &e[..], pos: 0, step }).ok().map(|x| enc(&x));
+                cx.eq("chunked reader: same verdict and element as the direct call", &dd, got, full.clone());
+                let got = Affine::deserialize_compressed(Chunked { data: &e[..], pos: 0, step }).ok().map(|a| { let x: Element = a.into(); enc(&x) });
+                cx.eq("chunked reader (AffinePoint): same verdict and element", &dd, got, full.clone());
+            }
         }
     }
     for len in 0..=80usize {
@@ -180,14 +228,34 @@ pub fn mul(cx: &mut Ctx, iters: usize) {
         cx.eq("[r]P is the identity", &d, (p * fr_of(&(&rr - n(1))) + p).is_identity(), true);
     }
     // multiscalar / MSM
-    let pts: Vec<Element> = ss.iter().take(4).map(|x| x.0).collect();
-    let rps: Vec<Aff> = ss.iter().take(4).map(|x| x.1.clone()).collect();
+    // four DIFFERENT non-identity elements in different internal representations (samples come in groups of four per scalar)
+    let pick: Vec<usize> = [4usize, 9, 14, 19].iter().map(|i| i % ss.len()).collect();
+    let pts: Vec<Element> = pick.iter().map(|&i| ss[i].0).collect();
+    let rps: Vec<Aff> = pick.iter().map(|&i| ss[i].1.clone()).collect();
     let kv: Vec<N> = (0..4).map(|_| cx.rng.below(&rr)).collect();
     let kr: Vec<Fr> = kv.iter().map(fr_of).collect();
     let mut want = id();
     for i in 0..4 { want = te_add(&want, &smul(&kv[i], &rps[i])); }
     let d = || format!("scalars {:?}", kv);
     cx.eq("vartime_multiscalar_mul", &d, enc(&Element::vartime_multiscalar_mul(kr.iter(), pts.iter())), encode_aff(&want));
+    for zero_at in 0..4usize {
+        for second in [None, Some((zero_at + 1) % 4)] {
+            let mut kz = kv.clone(); kz[zero_at] = n(0); if let Some(j) = second { kz[j] = n(0); }
+            let krz: Vec<Fr> = kz.iter().map(fr_of).collect();
+            let mut w = id();
+            for i in 0..4 { w = te_add(&w, &smul(&kz[i], &rps[i])); }
+            let dz = || format!("scalars {:?} (zero scalars at positions {} {:?})", kz, zero_at, second);
+            cx.eq("vartime_multiscalar_mul with zero scalars", &dz, enc(&Element::vartime_multiscalar_mul(krz.iter(), pts.iter())), encode_aff(&w));
+            // a zero that is computed rather than literal
+            let mut krc = krz.clone(); krc[zero_at] = fr_of(&n(77)) + (-fr_of(&n(77)));
+            cx.eq("vartime_multiscalar_mul with a computed zero scalar", &dz, enc(&Element::vartime_multiscalar_mul(krc.iter(), pts.iter())), encode_aff(&w));
+            let b2 = Element::batch_convert_to_mul_base(&pts);
+            cx.eq("VariableBaseMSM::msm with zero scalars", &dz, enc(&<Element as VariableBaseMSM>::msm(&b2, &krz).unwrap()), encode_aff(&w));
+        }
+    }
+    let none_k: Vec<Fr> = Vec::new(); let none_p: Vec<Element> = Vec::new();
+    cx.eq("vartime_multiscalar_mul of nothing", &d, enc(&Element::vartime_multiscalar_mul(none_k.iter(), none_p.iter())), n(0));
+    cx.eq("vartime_multiscalar_mul by value", &d, enc(&Element::vartime_multiscalar_mul(kr.clone(), pts.clone())), encode_aff(&want));
     let bases = Element::batch_convert_to_mul_base(&pts);
     cx.eq("VariableBaseMSM::msm", &d, enc(&<Element as VariableBaseMSM>::msm(&bases, &kr).unwrap()), encode_aff(&want));
     cx.eq("generator is not the identity", &d, Element::GENERATOR.is_identity(), false);
@@ -316,6 +384,32 @@ pub fn ctor(cx: &mut Ctx, iters: usize) {
                 cx.eq("Fq::rand is canonical", &|| format!("RNG stream mode {}, draw {}", mode, k), Fq::from_bytes_checked(&x.to_bytes()).is_ok(), true);
                 let y = decaf377::Fr::rand(&mut rng);
                 cx.eq("Fr::rand is canonical", &|| format!("RNG stream mode {}, draw {}", mode, k), decaf377::Fr::from_bytes_checked(&y.to_bytes()).is_ok(), true);
+            }
+        }
+    }
+    // uncompressed (de)serialisation: whatever the implementation does with Compress::No (the pinned code answers
+    // unimplemented!()), it must not hand out a point outside the group
+    {
+        use ark_serialize::{Compress, Validate};
+        let f = fq();
+        let qq = q();
+        let i = f.sqrt(&(&qq - n(1)));
+        let mut pts: Vec<(String, N, N)> = vec![("(i, 0)".into(), i.clone(), n(0)), ("(-i, 0)".into(), f.neg(&i), n(0))];
+        for k in [1u64, 2, 5] {
+            let a: Affine = (Element::GENERATOR * Fr::from(k)).into_affine();
+            let (x, y) = a.xy().map(|(x, y)| (N::from_bytes_le(&x.to_bytes()), N::from_bytes_le(&y.to_bytes()))).unwrap();
+            pts.push((format!("G*{} + (i, 0)", k), f.mul(&i, &y), f.mul(&i, &x)));
+            pts.push((format!("G*{} (a valid point)", k), x, y));
+        }
+        for (nm, x, y) in pts.iter() {
+            let mut bytes = le32(x).to_vec(); bytes.extend_from_slice(&le32(y));
+            for validate in [Validate::Yes, Validate::No] {
+                let b2 = bytes.clone();
+                let r = crate::no_panic_or(move || Affine::deserialize_with_mode(&b2[..], Compress::No, validate).ok());
+                if let Some(Some(p)) = r { valid(cx, "AffinePoint::deserialize_with_mode(Compress::No)", p.into(), format!("64 bytes x||y of {}", nm)); } else { cx.n += 1; }
+                let b3 = bytes.clone();
+                let r = crate::no_panic_or(move || Element::deserialize_with_mode(&b3[..], Compress::No, validate).ok());
+                if let Some(Some(p)) = r { valid(cx, "Element::deserialize_with_mode(Compress::No)", p, format!("64 bytes x||y of {}", nm)); } else { cx.n += 1; }
             }
         }
     }
